@@ -20,7 +20,7 @@ LEVEL_TEXT = ("Theorem for every PML-free scene of the model (any grid, ghost fa
               "every wall-compatible s; forward preserves wall compatibility. The fully anisotropic lossless tiers (9-component inverse permittivity and / or "
               "permeability, symmetric or not; four-point co-location averages with ghost reads; model/YeeFull.v) have the same theorem "
               "(C02_full_tensor_backward_forward_id). Tie: per-step correspondence of forward and backward on hand-built (incl. 9-component, bit-exact) and placed scenes.")
-LEVEL_NOTE = ("The 9-component model covers uniform grids (the width-weighted averages of stretched grids are exercised by the round-trip predicate only); "
+LEVEL_NOTE = ("The 9-component model covers uniform and stretched grids (width-weighted co-location averages; one definition, equal to the four-point mean when all widths agree); "
               "placed scenes with full tensors are compared by the predicate. Sources are additive oracles.")
 TECHNIQUE = "Coq proof (per-cell field identities + in-box extensionality of the curl) + vm_compute correspondence over Qc"
 
@@ -69,7 +69,7 @@ def gen_cases(ctx):
             c.pop("sigma", None)
             c.update(full_eps=True, full_mu=bool((i // 4) % 2), pow2=True)
         cases.append(c)
-    # 9-component tiers on stretched grids (width-weighted co-location averages): implementation round-trip predicate only
+    # 9-component tiers on stretched grids (width-weighted co-location averages of model/YeeFull.v; compared to 1e-9, the weights are not dyadic)
     for i in range(ctx.pick(2, 8)):
         c = C01.rand_case(ctx.rng, ctx.quick, 4 * i + 1)
         rng = ctx.rng
@@ -92,7 +92,7 @@ def run_cases(ctx, cases):
 
 
 def modelled(case, out):
-    return "error" not in out and (out.get("ncomp_eps", 1) != 9 or case["kind"] == "hand") and not case.get("stretched9")
+    return "error" not in out and (out.get("ncomp_eps", 1) != 9 or case["kind"] == "hand")
 
 
 def coq_expr(case, out):
